@@ -131,3 +131,11 @@ func init() {
 		Assumptions: []string{"per-level validation uses the reference semantics of DESIGN.md section 4 plus strconv for int containers"},
 	})
 }
+
+func init() {
+	addProp(&propDef{
+		ID: "C14", Check: "help", Level: "exploration",
+		Rule: "command trees of the bound (hooks on every level, long descriptions set) x spec assignments over {`[-f]`, `[-f] X`, `[-f] [-- X...]`} x every target x every alias combination x per-level argvs (valid, invalid, with and without `--`) x a -h/--help token inserted at every position x the three policies; plus a declared version flag as first argument; judged: the long help of the command named by the sub-command names preceding the token (exact usage line, long description), no `Error:` line, no hook, exit 0 under ExitOnError else nil; a help token after `--` in the same command's own arguments must be bound as data; cases where an ancestor's own arguments contain `--` are generated, counted, not judged; non-trivial = judged help/version requests",
+		Assumptions: []string{"the addressed command is computed by a 5-line walk over the sub-command names preceding the token"},
+	})
+}
